@@ -821,3 +821,51 @@ class MCPublicSendScp:
     def ensures_resolved_coordinates_lead_and_the_rest_is_handed_on(args, g_x, g_y, g_p, g_expected, g_reply, result, _trace):
         return (result == g_reply and len(_trace) == 1
                 and _trace[0] == ("_send_scp", (g_x, g_y, g_p, args[0], args[1]), (("expected_args", g_expected),)))
+
+
+@contract("rig/machine_control/bmp_controller.py::BMPController.send_scp")
+class BMPPublicSendScp:
+    """the BMP form: the command goes to exactly the (cabinet, frame, board) resolved for the call; positional and other keyword
+    arguments are handed on unchanged"""
+    properties = ("C18",)
+    params = dict(self=TRec("BMPController"), args=TTuple(TInt(), TInt()), g_c=TInt(0, 255), g_f=TInt(0, 255), g_b=TInt(0, 23),
+                  g_expected=TInt(0, 3), g_reply=TInt())
+    externals = {"BMPController._send_scp": _sendscp_rec}
+    options = {"decorators": {"use_contextual_arguments": "identity"},
+               "kwargs": {"cabinet": "g_c", "frame": "g_f", "board": "g_b", "expected_args": "g_expected"}}
+    assumptions = ["use_contextual_arguments as the identity (the wrapper has put the resolved values among the keyword arguments); "
+                   "_send_scp (contract BMPSendScp) is recorded"]
+
+    def native(x):
+        raise __import__("pyvc.replay", fromlist=["OutsideHarness"]).OutsideHarness()
+
+    def ensures_resolved_board_leads_and_the_rest_is_handed_on(args, g_c, g_f, g_b, g_expected, g_reply, result, _trace):
+        return (result == g_reply and len(_trace) == 1
+                and _trace[0] == ("_send_scp", (g_c, g_f, g_b, args[0], args[1]), (("expected_args", g_expected),)))
+
+
+# ---- a new MachineController: knows nothing about any machine yet, and talks to exactly the host it was given ---------------------------
+@contract("rig/machine_control/machine_controller.py::MachineController.__init__")
+class MachineControllerInit:
+    """a controller starts from its own arguments only: one connection, to exactly the host, port, number of tries and timeout given,
+    filed as the connection of unknown position (what the context stack starts from: contract MachineControllerInitialContext); buffer size, window size, root chip and machine dimensions all UNKNOWN (to be asked of
+    this controller's own machine), the fill-id counter at 0, and the struct dictionary the one given"""
+    properties = ("C18", "C17", "C06")
+    params = dict(self=TRec("MachineController"), initial_host=TInt(), scp_port=TInt(1, 65535), boot_port=TInt(1, 65535), n_tries=TInt(1, 100),
+                  timeout=TReal(), structs=TRec("Dict", ident=TInt(0, 9)), initial_context=ARGS)
+    externals = {"ContextMixin.__init__": _mixin_init, "class:SCPConnection": _new_conn}
+    assumptions = ["ContextMixin.__init__ (ownership contract of Context.__init__) and the SCPConnection constructor are recorded; the struct "
+                   "dictionary is given (the default, parsed from the bundled file, is property C20's)"]
+
+    def native(x):
+        raise __import__("pyvc.replay", fromlist=["OutsideHarness"]).OutsideHarness()
+
+    def ensures_own_arguments_only_everything_else_unknown(self_post, initial_host, scp_port, boot_port, n_tries, timeout, structs, _trace):
+        return (len(_trace) == 2 and _trace[0] == ("context_init",)
+                and _trace[1] == ("connection_made", initial_host, scp_port, n_tries, timeout)
+                and self_post.connections[None].ident == 7 and len(self_post.connections) == 1
+                and self_post.initial_host == initial_host and self_post.scp_port == scp_port and self_post.boot_port == boot_port
+                and self_post.n_tries == n_tries and self_post.timeout == timeout
+                and self_post._scp_data_length is None and self_post._window_size is None and self_post._root_chip is None
+                and self_post._width is None and self_post._height is None and self_post._nn_id == 0
+                and self_post.structs.ident == structs.ident)
